@@ -9,6 +9,21 @@ E2 = "explicit-state breadth-first search over operation sequences on the real o
 E1 = "stateless model checking of the real code under a controlled cooperative scheduler: every interleaving of the atomic/lock/channel steps of a small multi-goroutine harness (iterative preemption bounding, happens-before state matching), linearizability oracle + vector-clock race detection on every execution"
 
 claimed = {
+ "C02": dict(engine="E2 space", technique=E2, design="6 C02",
+   text="Explicit-state BFS to the fix-point on the real SkipList (start states NewSkipList(), the zero value, zero value after Clear()) and on SkipListWithCmp under every total order of the keys (6 orders quick, all 24 thorough): keys {1,2,3} (thorough {1..4}), values {0,1}, ops Set/SetNx (with the tower height as an enumerated answer of the private random source: heights 1,2,3 and 'capped'), SetX, Remove, Clear, node SetValue; plus ladder systems that grow the top level to 32 and shrink it back. Every transition compared with a sorted-map model, every state with Len, Head, Get/GetNode 0..5, Keys, Values, All, Range with every early stop, RangeWithStart for every start, RangeWithRange for all 36 pairs and structural invariants of the towers.",
+   note="Trusted: reflective canonical dump; replacement of the private *rand.Rand by a scripted source (start-up self-test checks the menu yields distinct heights). Outside: more than 4 distinct keys."),
+ "C03": dict(engine="E2 space", technique=E2, design="6 C03",
+   text="Explicit-state BFS on the real RoaringBitmap from its zero value: (i) to the fix-point over Add/Remove on highs {0,1,0xFFFF} x lows {0,1,65535} (all 512 sets, three tower-height functions); (ii) threshold family: buckets pre-filled with 4094..4097 values in 4 patterns, optionally next to a second bucket, then every Add/Remove sequence of depth <= 3 (4 thorough) over 2 highs x {present, absent, min, max}; (iii) drain-to-empty and refill macro transitions. Every transition: Add/Remove result; every state: Len, Contains on alphabet+neighbours, and Iter = Range = All = sorted model with counts, early stops.",
+   note="Trusted: reflective canonical dump (container type included, scratch buffer by digest); tower heights of the inner skip list scripted as a function of the bucket key. Outside: more than 3 buckets, fills far above 4097."),
+ "C07": dict(engine="E3 enum", technique=E3, design="6 C07",
+   text="Bounded-exhaustive enumeration: round trips on every byte string of length <= 2 (3 thorough) for all four codecs (incl. every invalid UTF-8 string -> one U+FFFD per invalid byte), every Unicode scalar value singly, boundary-alphabet strings up to length 5 (6), format shape checked by an independent scanner; parsers on every token sequence of <= 4 (5-6) tokens from per-codec menus of 14-20 tokens (well-formed, truncated, bad digit, out of range, lower case, surrogates, lone backslash) and on every raw string over small byte alphabets up to length 7-12: never panics, terminates, len(out) <= len(in), backslash-free input unchanged, all forms agree; exact decoding asserted for Format-shaped escapes between backslash-free text.",
+   note="Trusted: independent reference encoder/decoder in the harness. Outside: exactness for escapes adjacent to other escapes or not in Format shape (property gives safety clauses only)."),
+ "C15": dict(engine="E3 enum", technique=E3, design="6 C15",
+   text="Bounded-exhaustive differential enumeration against the standard library: ParseUint on every string of length <= 4 (5 for six bases on thorough) over a 19-symbol alphabet x bases -1..37 x 13 bit sizes, plus every overflow-boundary numeral for bases 2..36 x bit sizes 1..64 in several spellings; hex encode/decode/in-place on all byte strings <= 2 (3) and texts over a 9-symbol alphabet; four base64 encodings; 8 digests, HMAC over key/data lengths 0..130, 6 stream helpers under every reader script with <= 2 (3) deviations; IPv4 round trip on 140k structured addresses (thorough: all 2^32).",
+   note="Trusted: strconv, encoding/hex, encoding/base64, crypto/*. Outside: longer ParseUint strings, error texts of ParseUint."),
+ "C18": dict(engine="E3 enum", technique=E3 + "; Go map iteration order inside golib is an enumerated environment answer (deviation-bounded DFS over order scripts)", design="6 C18",
+   text="Bounded-exhaustive enumeration with brute-force oracles over all 2^n subsets: Knapsack on every ordered item list of <= 4 (5) items x every limit x 4 tie-breaker variants; FindDpSolvers/Best/BestAllowMinOverflow on every value list of <= 6 (7) values x every maxValue x allowOverOnce x tie-breakers; every simple graph on <= 5 (6) vertices through GetMaximalCliques and BronKerbosch with every permutation of P. algz/dp.go and graph.go are rebuilt from the working tree with every range-over-map redirected to an environment: every script of map iteration orders with <= 1 (2 thorough) deviations from ascending order is executed for every case.",
+   note="Trusted: brute-force subset/clique enumeration; the range-over-map rewrite (golib's own tests pass through it). Outside: larger inputs; more than 2 order deviations per execution."),
  "C01": dict(engine="E1 sched", technique=E1, design="6 C01",
    text="Stateless model checking of the real ringz/sync.go (atomics, Gosched and every plain field/element access instrumented at check time): for capacities 2 and 4, every fill level, five rotations (two with the 32-bit counter wrap inside the concurrent window) and 8 thread programs (push|push|pop, push,push|pop,pop, push|pop|push,pop, push|pop|observer, pop|pop|push, three pushers, three poppers, PushWait/PopWait spinning and zero-wait pairs) ALL schedules are enumerated without a preemption bound (2 pushers x2 + popper x2 on capacity 2: bound 3 quick, unbounded thorough). Every execution: linearizability to FIFO(Cap) with the property's relaxations, drain epilogue, exact Len/IsEmpty/IsFull at quiescence, progress of pushers-only/poppers-only, vector-clock data-race detection, deadlock/livelock/panic; 0<=Len<=Cap probed at every reachable state with all threads frozen.",
    note="Trusted: the shim's model of sync/atomic (sequentially consistent, one step per operation), 128-bit state hashing, the instrumenter (validated by running golib's own tests through the overlay). Outside: >3 goroutines, >2 operations each, capacity >4, positive wait durations (real ticker)."),
